@@ -59,6 +59,11 @@ def gen_cases(chk):
         k = rng.choice([53, 54, 55, 56])
         M = (rng.getrandbits(53) | (1 << 52)) << (k - 53)
         add("dec_sig53", "decenc", (rng.getrandbits(1) << 63) | (rng.randrange(128) << 56) | M)
+    # 6b. the largest mantissas at the largest exponents (rounding up to 16^63)
+    for e in (126, 127):
+        for d in range(1, 9):
+            add("dec_max", "decenc", (e << 56) | ((1 << 56) - d))
+            add("dec_max", "decenc", (1 << 63) | (e << 56) | ((1 << 56) - d))
     # 7. uniform random words both ways
     for _ in range(1000 if quick else 30000):
         add("dec_random", "decenc", rng.getrandbits(64))
